@@ -17,7 +17,13 @@ RULE = ("valid (reference, estimate) pairs per task on the exact 1/32 s lattice 
         "metric functions with the real ones; non-trivial = both sides non-empty")
 ASSUMPTIONS = ["theorems are about the Lean model; they transfer to the code where the correspondence suites agree",
                "binary64 on the exact lattice performs the modelled rational comparisons exactly"]
-UNPROVED = []
+UNPROVED = [
+    "C02.Segment (entropy-based scores): the self theorems (MI = H, NMI = 1, NCE / V = (1,1,1), AMI = 1) are about the "
+    "real-number reading of the model; NMI(y,y) = 1 needs H(y) >= 1e-10, the code's floor (proved for <= 10^10 "
+    "frames; nmi_self_full_statement is false of the model at 10^12 frames, not reachable by running the code); "
+    "AMI(y,y) = 1 is proved unless every frame has its own label, where numerator and denominator are both 0 "
+    "(ami_self_all_singletons: the binary64 result there is nan or 1.0 by rounding - outside the non-degenerate inputs)",
+]
 SUITES, _classifiers = SU.load_all()
 CHECKERS, ORACLES = _relational.make(R.check_self, self_inputs=True)
 _xc, _xo = _relational.extra(PID)
